@@ -125,10 +125,18 @@ def run(pid, tier, seed):
                 rr = common.run_s4(argv + [name], cwd=d, timeout=600)
                 import shutil
                 shutil.rmtree(d, ignore_errors=True)
+                # most line starts in any one block: the held lines / messages are bounded by (held blocks) x this
+                lpb = 1
+                cnt = {}
+                pos = 0
+                for ln in blob.split(b"\n"):
+                    cnt[pos // B] = cnt.get(pos // B, 0) + 1
+                    pos += len(ln) + 1
+                lpb = max(cnt.values())
                 if rr.crashed:
-                    out.append((nb, span, None, rr))
+                    out.append((nb, (span, lpb), None, rr))
                 else:
-                    out.append((nb, span, highs(rr.err), rr))
+                    out.append((nb, (span, lpb), highs(rr.err), rr))
             return out
 
         t0 = time.time()
@@ -139,14 +147,15 @@ def run(pid, tier, seed):
         reproduced = False
         for (dist, cont, B, win), ser in zip(jobs, allseries):
             rec = {"kind": "c17", "dist": dist, "container": cont, "blocksz": B, "window": win,
-                   "series": [(nb, span, h) for nb, span, h, _ in ser]}
+                   "series": [(nb, sp[0], h) for nb, sp, h, _ in ser]}
             if any(h is None for _, _, h, _ in ser):
                 rep.violation("crash", "run failed (%s %s B=%d)" % (dist, cont, B), rec)
                 continue
             for key in ("blocks high", "lines high", "syslines high"):
                 vals = [h[key] for _, _, h, _ in ser]
-                span = max(s for _, s, _, _ in ser)
-                allow = 4 * span + 8 if key == "blocks high" else 4 * 8 + 8 * span
+                span = max(s[0] for _, s, _, _ in ser)
+                lpb = max(s[1] for _, s, _, _ in ser)
+                allow = 4 * span + 8 if key == "blocks high" else (4 * span + 8) * lpb + 8
                 # a windowed plain file is binary-searched first: every probe may keep a message (up to 3 blocks)
                 extra = 3 * (math.ceil(math.log2(decades[-1] * B)) + 2) if win else 0
                 # growth = beyond the model's bound, or scaling with the size (x40 size -> more than x3 and still rising)
